@@ -577,6 +577,7 @@ package grpctunnel
 //@     assert[C01,C16] @nofab rerr == nil && sameSlice(arg0, rdata)
 //@   ensures[C01,C16] @err rerr != nil ==> result == rerr && count("unmarshal") == 0
 //@   ensures[C01]     @decoded rerr == nil ==> count("unmarshal") == 1
+//@   nopanic[C09] kinds nilderef, index, slice, nilmap, nilinvoke, nilfunc, doubleclose, sendclosed, divzero, makeslice, closenil
 //@   locks st.readMu, st.svr.mu, st.writeMu
 //@   assigns st.halfClosed, cancel(st.cancel), rclosed(st.receiver)
 
@@ -993,6 +994,7 @@ package grpctunnel
 //@     assert[C01,C16] @nofab rerr == nil && sameSlice(arg0, rdata)
 //@   ensures[C01,C16] @err rerr != nil ==> result == rerr && count("unmarshal") == 0
 //@   ensures[C01]     @decoded rerr == nil ==> count("unmarshal") == 1
+//@   nopanic[C09] kinds nilderef, index, slice, nilmap, nilinvoke, nilfunc, doubleclose, sendclosed, divzero, makeslice, closenil
 //@   locks st.readMu, st.ch.mu, st.metaMu
 //@   assigns st.done, cancel(st.cancel), rclosed(st.receiver), rcancelled(st.receiver), chan(st.doneSignal), chan(st.gotHeadersSignal), elems(st.trailersTargets)
 
